@@ -460,3 +460,39 @@ Definition run_serial (r : hreq) : houtcome :=
   | None => HNormal (zrange 0 n)
   end.
 Definition run_history_serial (h : list hreq) : list houtcome := map run_serial h.
+
+(* ============================================================ Part 7: the order "count, then publish" *)
+(* In SplitAndAddTask the piece is COUNTED (++m_RunningCount) before it is PUBLISHED (WriterTryWriteFront); the machine
+   above takes both in one step (AddWrite / RestWrite), which is exact for that order: between the two the count is only
+   higher and the piece is not yet visible to any thief.  The variant below publishes first and counts later (two steps,
+   [v_late] = published pieces whose increment is still outstanding); everything else is the machine above.
+   Properties.enki_publish_before_count_refuted: in the variant the waiter's exit condition can hold with indices unrun. *)
+Record stv := { v_st : st; v_late : nat }.
+Inductive vlabel :=
+| VL (l : label)              (* a step of the machine above (AddWrite / RestWrite are not available) *)
+| VPublish                    (* root loop: piece cut and written to the pipe, not yet counted *)
+| VRestPublish (i : nat)      (* rest loop of entry i: likewise *)
+| VCount.                     (* one outstanding ++m_RunningCount happens *)
+Definition with_rc (s : st) (z : Z) : st :=
+  {| pipes := pipes s; adder := adder s; entries := entries s; owed := owed s; rc := z; done := done s; elog := elog s |}.
+Definition step_pubfirst (p : params) (s : stv) (l : vlabel) : option stv :=
+  let publish (l0 : label) :=
+      match step p (v_st s) l0 with
+      | Some s' => Some {| v_st := with_rc s' (rc s' - 1); v_late := Datatypes.S (v_late s) |}
+      | None => None
+      end in
+  match l with
+  | VL AddWrite | VL (RestWrite _) => None
+  | VL l0 => match step p (v_st s) l0 with Some s' => Some {| v_st := s'; v_late := v_late s |} | None => None end
+  | VPublish => publish AddWrite
+  | VRestPublish i => publish (RestWrite i)
+  | VCount => match v_late s with
+              | O => None
+              | Datatypes.S k => Some {| v_st := with_rc (v_st s) (rc (v_st s) + 1); v_late := k |}
+              end
+  end.
+Fixpoint run_pubfirst (p : params) (s : stv) (ls : list vlabel) : option stv :=
+  match ls with
+  | [] => Some s
+  | l :: r => match step_pubfirst p s l with Some s' => run_pubfirst p s' r | None => None end
+  end.
